@@ -115,10 +115,14 @@ func H_C10_unbind() {
 	var mu sync.Mutex
 	var handled []int
 	unbinds := 0
+	answers := vBool("handlersAnswer")
 	hf := func(w *ResponseWriter, r *Request) {
 		mu.Lock()
-		defer mu.Unlock()
 		handled = append(handled, r.ID)
+		mu.Unlock()
+		if answers {
+			_ = w.Write(r.NewResponse(WithResponseCode(ResultSuccess)))
+		}
 	}
 	vAssume(m.Delete(hf) == nil && m.Add(hf) == nil && m.DefaultRoute(hf) == nil)
 	withRoute := vBool("unbindRoute")
@@ -136,6 +140,10 @@ func H_C10_unbind() {
 		}) == nil)
 	}
 	nc := vNetConn("c")
+	// the client may have stopped taking responses: every write to it fails (and the
+	// connection's buffered writer remembers the error)
+	writesFail := answers && vBool("writesFail")
+	vConnSet(nc, "writeFail", writesFail)
 	for i := 0; i < L; i++ {
 		if i == pos {
 			vConnFeed(nc, vWire(refEnvelope(int64(i+1), refUnbindOp(), nil)))
@@ -169,7 +177,11 @@ func H_C10_unbind() {
 	for _, id := range handled {
 		vAssert(id >= 1 && id <= pos, "nothing after the Unbind reaches a handler")
 	}
-	vAssert(vConnWrites(nc) == 0, "gldap sends no response to Unbind")
+	wantWrites := 0
+	if answers && !writesFail {
+		wantWrites = len(handled)
+	}
+	vAssert(vConnWrites(nc) == wantWrites, "gldap sends no response to Unbind (only the handlers' answers are written)")
 	vAssertE(vConnFramesRead(nc) == pos+1, "no frame is read after the Unbind")
 	vAssert(vConnClosed(nc) == 1, "connection closed once")
 	vReach("unbind done")
@@ -272,7 +284,7 @@ func H_C13_starttls() {
 		}()
 	}
 	framesAtStart, framesAtEnd := -1, -1
-	vAssume(m.ExtendedOperation(func(w *ResponseWriter, r *Request) {
+	startTLSHandler := func(w *ResponseWriter, r *Request) {
 		inHandler = true
 		vAssertE(int64(r.ID) == r.message.GetID() && r.ConnectionID() == 7, "the StartTLS request has its arrival number and the connection's ID")
 		framesAtStart = vConnFramesRead(nc)
@@ -286,7 +298,20 @@ func H_C13_starttls() {
 		startErr = r.StartTLS(cfg)
 		framesAtEnd = vConnFramesRead(nc)
 		inHandler = false
-	}, ExtendedOperationStartTLS) == nil)
+	}
+	// the StartTLS handler is reached through a dedicated route, or through the default
+	// route of an application that routes extended operations itself
+	if vBool("startTLSViaDefaultRoute") {
+		vAssume(m.DefaultRoute(func(w *ResponseWriter, r *Request) {
+			if r.extendedName == ExtendedOperationStartTLS {
+				startTLSHandler(w, r)
+				return
+			}
+			hf(w, r)
+		}) == nil)
+	} else {
+		vAssume(m.ExtendedOperation(startTLSHandler, ExtendedOperationStartTLS) == nil)
+	}
 	for i := 0; i < M; i++ {
 		if i == pos {
 			vConnFeed(nc, vWire(refEnvelope(int64(i+1), refStartTLSOp(), nil)))
